@@ -30,14 +30,17 @@
      C16  T08_report_zone_display_only    T06 structure for two configurations + C13_sum_over_groups; both runs succeed; run_hyp
      C19  T08_effective_config, T08_effective_config_any, T08_effective_keys   C19_metamorphic / _precedence / _selectors
    (C12 strict mode, C08 Git storage, C04 over several files, C11 with regular expressions: props/T08_T07.v, on top of T07;
-    C18: the filter definition reaches the run as a parsed tree, its encodings are outside run_cfg.) *)
+    C18  T08_filter_encodings, T08_filter_reserialised, T08_malformed_filter_no_output (+ _classes), T08_filter_text_description:
+         the filter as the TEXT of --api-filter-def (TkModel.T08_filter.run_console_ft / run_files_ft = Codec.from_any, then T06's run);
+         C18_roundtrip / _armor_eq_json / _fixed_point / _armor_one_prefix / _b64_rejects / _rejects / _parsed_wf; parameters rx_ok,
+         json_parse, rx_compile (libraries by contract).) *)
 From Coq Require Import List ZArith NArith Bool Arith Lia Permutation Sorted.
 From TkModel Require Import Base Dec Acct Txn Accept Journal Balance Register Round Price Time Group.
-From TkModel Require Import ReportText T05_report PriceText Regex T06_describe T06_run.
+From TkModel Require Import ReportText T05_report PriceText Regex T06_describe T06_run T08_filter.
 From TkModel Require Filter Equity EquityText MetaText Audit Codec Tstamp Config Output.
 From TkSpec Require Import Balance_spec Register_spec Round_spec Price_spec ReportText_spec T05_spec T05_grp_spec T06_spec T08_spec.
-From TkSpec Require Accept_spec Filter_spec Audit_spec Equity_spec EquityText_spec Journal_spec Group_spec MetaText_spec.
-From TkProofs Require Import T06_proofs T08_proofs.
+From TkSpec Require Codec_spec Accept_spec Filter_spec Audit_spec Equity_spec EquityText_spec Journal_spec Group_spec MetaText_spec.
+From TkProofs Require Import T06_proofs T08_proofs T08_filter_proofs.
 Import ListNotations.
 Local Open Scope Z_scope.
 
@@ -511,3 +514,88 @@ Example T08_example :
       Output.rr_ok r = false /\ Output.rr_announced r = [0%nat] /\ nth_error (Output.rr_disk r) 1 = Some (Some [120%N])).
 Proof. exact t08_example. Qed.
 Print Assumptions T08_example.
+
+(* ---------------------------------------------------------------- C18: the filter as the TEXT of --api-filter-def *)
+(* for every well-formed definition d and every JSON text of it (the text layer of serde_json is a parameter: any jtext
+   that parses to the tree of d): the plain text, its armored form `base64:` + base64 (UTF-8 (jtext)), and a re-
+   serialisation of whatever was parsed from either give byte-identical standard output and files (C18_roundtrip,
+   C18_armor_eq_json) *)
+Theorem T08_filter_encodings : forall rx_ok json_parse rx_compile H cfg d jtext j p,
+  Codec_spec.cf_wf rx_ok d = true -> json_parse jtext = Some (Codec.def_to_jv d) ->
+  Codec_spec.scalars jtext -> Codec.is_armored jtext = false ->
+  let armored := Codec.armor_tag ++ Codec.b64_enc (Codec.utf8_enc jtext) in
+  Codec.from_any rx_ok json_parse jtext = Some d /\ Codec.from_any rx_ok json_parse armored = Some d
+  /\ run_console_ft rx_ok json_parse rx_compile H cfg (Some armored) j p = run_console_ft rx_ok json_parse rx_compile H cfg (Some jtext) j p
+  /\ run_files_ft rx_ok json_parse rx_compile H cfg (Some armored) j p = run_files_ft rx_ok json_parse rx_compile H cfg (Some jtext) j p
+  /\ (forall t f jtext', (t = jtext \/ t = armored) -> Codec.from_any rx_ok json_parse t = Some f ->
+        json_parse jtext' = Some (Codec.def_to_jv f) -> Codec.is_armored jtext' = false ->
+        run_console_ft rx_ok json_parse rx_compile H cfg (Some jtext') j p = run_console_ft rx_ok json_parse rx_compile H cfg (Some jtext) j p
+        /\ run_files_ft rx_ok json_parse rx_compile H cfg (Some jtext') j p = run_files_ft rx_ok json_parse rx_compile H cfg (Some jtext) j p).
+Proof. exact filter_encodings. Qed.
+Print Assumptions T08_filter_encodings.
+
+(* ... and for ANY accepted definition text t (plain or armored, any spelling of numbers, instants, ids): a serialisation
+   of the definition parsed from it runs exactly as t does (C18_fixed_point) *)
+Theorem T08_filter_reserialised : forall rx_ok json_parse rx_compile H cfg t f jtext' j p,
+  Codec.from_any rx_ok json_parse t = Some f -> Codec_spec.cf_year0 f = true ->
+  json_parse jtext' = Some (Codec.def_to_jv f) -> Codec.is_armored jtext' = false ->
+  run_console_ft rx_ok json_parse rx_compile H cfg (Some jtext') j p = run_console_ft rx_ok json_parse rx_compile H cfg (Some t) j p /\ run_files_ft rx_ok json_parse rx_compile H cfg (Some jtext') j p = run_files_ft rx_ok json_parse rx_compile H cfg (Some t) j p.
+Proof. exact filter_reserialised. Qed.
+Print Assumptions T08_filter_reserialised.
+
+(* the run reads the text through Codec.from_any only *)
+Theorem T08_filter_same_definition : forall rx_ok json_parse rx_compile H cfg t1 t2 j p,
+  Codec.from_any rx_ok json_parse t1 = Codec.from_any rx_ok json_parse t2 ->
+  run_console_ft rx_ok json_parse rx_compile H cfg (Some t1) j p = run_console_ft rx_ok json_parse rx_compile H cfg (Some t2) j p /\ run_files_ft rx_ok json_parse rx_compile H cfg (Some t1) j p = run_files_ft rx_ok json_parse rx_compile H cfg (Some t2) j p.
+Proof. exact run_ft_same_def. Qed.
+Print Assumptions T08_filter_same_definition.
+
+(* a text the codec refuses: the run is an error in both modes — no report text, no file, no announcement *)
+Theorem T08_malformed_filter_no_output : forall rx_ok json_parse rx_compile H cfg t j p,
+  Codec.from_any rx_ok json_parse t = None ->
+  run_console_ft rx_ok json_parse rx_compile H cfg (Some t) j p = Err E_filter_def /\ run_files_ft rx_ok json_parse rx_compile H cfg (Some t) j p = Err E_filter_def.
+Proof. exact malformed_filter_no_output. Qed.
+Print Assumptions T08_malformed_filter_no_output.
+
+(* ... which are: a doubled `base64:` prefix; armor that is not canonical base64 (length, alphabet); a text that is not
+   JSON; JSON that is not a definition (a value the deserialiser refuses — only objects with exactly one known variant
+   name are filters: C18_rejects) *)
+Theorem T08_malformed_filter_classes : forall rx_ok json_parse ,
+  (forall x, Codec.from_any rx_ok json_parse (Codec.armor_tag ++ Codec.armor_tag ++ x) = None)
+  /\ (forall s, (length s mod 4 <> 0)%nat \/ Exists (fun c => Codec_spec.b64_alphabet c = false /\ c <> Codec.b64_pad) s ->
+        Codec.from_any rx_ok json_parse (Codec.armor_tag ++ s) = None)
+  /\ (forall t, Codec.is_armored t = false -> json_parse t = None -> Codec.from_any rx_ok json_parse t = None)
+  /\ (forall t j, Codec.is_armored t = false -> json_parse t = Some j -> Codec.def_of_jv rx_ok j = None ->
+        Codec.from_any rx_ok json_parse t = None)
+  /\ (forall t j, Codec.is_armored t = false -> json_parse t = Some j ->
+        (forall x, Codec.of_jv rx_ok x <> None -> exists tag body, x = Codec.JObj [(tag, body)] /\ In tag Codec_spec.variant_names)).
+Proof. exact refused_classes. Qed.
+Print Assumptions T08_malformed_filter_classes.
+
+(* the Filter item printed in front of the reports is the description, in the report zone, of the definition d the text
+   denotes (rx_compile's contract: the AST of a pattern text prints as that text) *)
+Theorem T08_filter_text_description : forall rx_ok json_parse rx_compile H cfg t j p out,
+  (forall s a, rx_compile s = Some a -> pp a = s) ->
+  run_console_ft rx_ok json_parse rx_compile H cfg (Some t) j p = Ok out -> rc_targets cfg <> [] ->
+  exists d items rest,
+    Codec.from_any rx_ok json_parse t = Some d
+    /\ out = MetaText.meta_text (items ++ [MetaText.IFilter (MetaText.filter_lines (describe_def_tz (rc_zone_off cfg) d))])
+             ++ [10%N] ++ rest.
+Proof. exact filter_text_description. Qed.
+Print Assumptions T08_filter_text_description.
+
+Example T08_filter_example :
+  Codec_spec.cf_wf (fun _ => true) ex_ft_def = true /\ ex_ft_json ex_ft_plain = Some (Codec.def_to_jv ex_ft_def)
+  /\ Codec.is_armored ex_ft_plain = false
+  /\ ex_ft_armored = Codec.armor_tag ++ Codec.b64_enc (Codec.utf8_enc ex_ft_plain)
+  /\ (forall s a, ex_ft_rx s = Some a -> pp a = s)
+  /\ run_console_ft (fun _ => true) ex_ft_json ex_ft_rx ex_H ex_cfg (Some ex_ft_plain) ex_journal (Some ex_prices) = Ok ex_ft_out
+  /\ run_console_ft (fun _ => true) ex_ft_json ex_ft_rx ex_H ex_cfg (Some ex_ft_armored) ex_journal (Some ex_prices) = Ok ex_ft_out
+  /\ length ex_ft_out = 821%nat
+  /\ run_console_ft (fun _ => true) ex_ft_json ex_ft_rx ex_H ex_cfg None ex_journal (Some ex_prices) = Ok ex_out
+  (* doubled prefix, truncated base64, a text that is not JSON *)
+  /\ run_console_ft (fun _ => true) ex_ft_json ex_ft_rx ex_H ex_cfg (Some (Codec.armor_tag ++ ex_ft_armored)) ex_journal (Some ex_prices) = Err E_filter_def
+  /\ run_console_ft (fun _ => true) ex_ft_json ex_ft_rx ex_H ex_cfg (Some [98;97;115;101;54;52;58;101;51;48]%N) ex_journal (Some ex_prices) = Err E_filter_def
+  /\ run_files_ft (fun _ => true) ex_ft_json ex_ft_rx ex_H ex_cfg (Some [123]%N) ex_journal (Some ex_prices) = Err E_filter_def.
+Proof. exact t08_filter_example. Qed.
+Print Assumptions T08_filter_example.
